@@ -16,6 +16,7 @@
 //     one right after it returned, was still accepted,
 //   - for every in-flight item: completed normally / cut by the proxy / still
 //     open, with the time.
+//
 // The parent turns each child result into one Coq case.
 package main
 
@@ -68,10 +69,10 @@ Local Open Scope N_scope.
 `
 
 const (
-	never    = -1 // duration of an item that never ends
+	never    = -1  // duration of an item that never ends
 	probeAt  = 150 // ms after shutdown began at which every listener is probed
-	lowerTol = 25 // ms a measured time may lie below the model's
-	upperTol = 800
+	lowerTol = 25  // ms a measured time may lie below the model's
+	upperTol = 300
 )
 
 type srvSpec struct {
@@ -92,6 +93,20 @@ type srvSpec struct {
 	// Shutdown: negative = before (with the in-flight connections still open), positive = while
 	// Shutdown runs, 0 = never
 	CloseAt int `json:"close_at_ms,omitempty"`
+	// RestartOf = k > 0: this listener is started on the address of server k-1 after that one has
+	// been closed by CloseProxy (the tcp-dynamic restart); StartAt > 0: it is started StartAt ms
+	// AFTER Shutdown began (what main.go's never-stopped tcp-dynamic watcher can do)
+	RestartOf int `json:"restart_of,omitempty"`
+	StartAt   int `json:"start_at_ms,omitempty"`
+	// http only: websocket sessions (hijacked by HTTPProxy's ws handler) with these remaining
+	// durations; request-body uploads still in progress for that long; connections that have
+	// not sent a request yet (count); keep the warm-up connection open and idle
+	Hijacked []int `json:"hijacked,omitempty"`
+	Uploads  []int `json:"uploads,omitempty"`
+	NewConns int   `json:"new_conns,omitempty"`
+	KeepIdle bool  `json:"keep_idle,omitempty"`
+	// grpc only: unary calls (health Check) with these remaining durations
+	Unary []int `json:"unary,omitempty"`
 }
 
 type scenario struct {
@@ -160,6 +175,53 @@ func (h *healthSrv) Watch(req *healthpb.HealthCheckRequest, st healthpb.Health_W
 		return fmt.Errorf("released")
 	}
 	return st.Send(&healthpb.HealthCheckResponse{Status: healthpb.HealthCheckResponse_SERVING})
+}
+
+func (h *healthSrv) Check(ctx context.Context, req *healthpb.HealthCheckRequest) (*healthpb.HealthCheckResponse, error) {
+	if !h.w.work(req.Service) {
+		return nil, fmt.Errorf("released")
+	}
+	return &healthpb.HealthCheckResponse{Status: healthpb.HealthCheckResponse_SERVING}, nil
+}
+
+// wsBackend answers an Upgrade request with 101 at once, then takes the duration named in the
+// request path (/ws/<d>) and sends DONE over the upgraded connection.
+var wsRe = regexp.MustCompile(`GET /ws/(-?[0-9]+|w) `)
+
+func wsBackend(w *world) net.Listener {
+	ln, err := net.Listen("tcp", "127.0.0.1:0")
+	if err != nil {
+		panic(err)
+	}
+	go func() {
+		for {
+			c, err := ln.Accept()
+			if err != nil {
+				return
+			}
+			go func(c net.Conn) {
+				defer c.Close()
+				var buf []byte
+				tmp := make([]byte, 4096)
+				for !bytes.Contains(buf, []byte("\r\n\r\n")) {
+					n, err := c.Read(tmp)
+					buf = append(buf, tmp[:n]...)
+					if err != nil {
+						return
+					}
+				}
+				m := wsRe.FindSubmatch(buf)
+				if m == nil {
+					return
+				}
+				c.Write([]byte("HTTP/1.1 101 Switching Protocols\r\nUpgrade: websocket\r\nConnection: Upgrade\r\n\r\n"))
+				if w.work(string(m[1])) {
+					c.Write([]byte("DONE\n"))
+				}
+			}(c)
+		}
+	}()
+	return ln
 }
 
 var durRe = regexp.MustCompile(`@@DUR=(-?[0-9]+|w)@@`)
@@ -330,6 +392,15 @@ func runChild(sc scenario) (res result) {
 
 	// ---- backends
 	httpB := httptest.NewServer(http.HandlerFunc(func(rw http.ResponseWriter, r *http.Request) {
+		if r.URL.Query().Get("mode") == "upload" { // the CLIENT decides when the body ends
+			atomic.AddInt32(&w.arrived, 1)
+			if b, err := io.ReadAll(r.Body); err == nil && strings.HasSuffix(string(b), "END") {
+				rw.Write([]byte("DONE"))
+				return
+			}
+			rw.WriteHeader(400)
+			return
+		}
 		if w.work(r.URL.Query().Get("d")) {
 			rw.Write([]byte("DONE"))
 			return
@@ -337,6 +408,7 @@ func runChild(sc scenario) (res result) {
 		rw.WriteHeader(503)
 	}))
 	tcpB := tcpBackend(w)
+	wsB := wsBackend(w)
 	grpcLn, err := net.Listen("tcp", "127.0.0.1:0")
 	if err != nil {
 		panic(err)
@@ -349,6 +421,7 @@ func runChild(sc scenario) (res result) {
 	addrs := make([]string, len(sc.Servers))
 	var tbl strings.Builder
 	fmt.Fprintf(&tbl, "route add web web.test/ %s\n", httpB.URL)
+	fmt.Fprintf(&tbl, "route add ws web.test/ws http://%s\n", wsB.Addr())
 	fmt.Fprintf(&tbl, "route add rpc rpc.test/ grpc://%s opts \"proto=grpc\"\n", grpcLn.Addr())
 	fmt.Fprintf(&tbl, "route add sni tunnel.test/ tcp://%s opts \"proto=tcp\"\n", tcpB.Addr())
 	hole := ""
@@ -376,6 +449,9 @@ func runChild(sc scenario) (res result) {
 	routed := map[string]bool{}
 	for i, s := range sc.Servers {
 		addrs[i] = freeAddr()
+		if s.RestartOf > 0 {
+			addrs[i] = addrs[s.RestartOf-1]
+		}
 		if s.PortGroup > 0 {
 			ip := s.IP
 			if ip == "" {
@@ -415,7 +491,8 @@ func runChild(sc scenario) (res result) {
 
 	// ---- the real listeners
 	serveErr := make(chan string, len(sc.Servers))
-	for i, s := range sc.Servers {
+	startServer := func(i int) {
+		s := sc.Servers[i]
 		l := config.Listen{Addr: addrs[i]}
 		switch s.Kind {
 		case "http":
@@ -509,6 +586,11 @@ func runChild(sc scenario) (res result) {
 			}()
 		default:
 			panic("unknown kind " + s.Kind)
+		}
+	}
+	for i, s := range sc.Servers {
+		if s.RestartOf == 0 && s.StartAt == 0 {
+			startServer(i)
 		}
 	}
 	res.Addrs = addrs
@@ -625,90 +707,233 @@ func runChild(sc scenario) (res result) {
 		}
 	}
 
+	// a websocket session: Upgrade request through HTTPProxy's ws handler (hijacked connection)
+	wsClient := func(addr string) func(string) bool {
+		return func(d string) bool {
+			c, err := net.DialTimeout("tcp", addr, 2*time.Second)
+			if err != nil {
+				return false
+			}
+			defer c.Close()
+			fmt.Fprintf(c, "GET /ws/%s HTTP/1.1\r\nHost: web.test\r\nUpgrade: websocket\r\nConnection: Upgrade\r\n\r\n", d)
+			b, _ := io.ReadAll(c)
+			return strings.HasPrefix(string(b), "HTTP/1.1 101") && strings.HasSuffix(string(b), "DONE\n")
+		}
+	}
+	// a request whose body is still being uploaded: the client ends it d ms after shutdown began
+	upload := func(addr string) func(string) bool {
+		return func(d string) bool {
+			pr, pw := io.Pipe()
+			go func() {
+				pw.Write([]byte("PART"))
+				if d != "w" {
+					ms, _ := strconv.Atoi(d)
+					<-w.start
+					if ms < 0 {
+						<-w.release
+						pw.CloseWithError(io.ErrUnexpectedEOF)
+						return
+					}
+					select {
+					case <-time.After(time.Duration(ms) * time.Millisecond):
+					case <-w.release:
+					}
+				}
+				pw.Write([]byte("END"))
+				pw.Close()
+			}()
+			tr := &http.Transport{}
+			defer tr.CloseIdleConnections()
+			req, _ := http.NewRequest("POST", "http://"+addr+"/work?mode=upload", pr)
+			req.Host = "web.test"
+			resp, err := (&http.Client{Transport: tr}).Do(req)
+			if err != nil {
+				return false
+			}
+			defer resp.Body.Close()
+			b, err := io.ReadAll(resp.Body)
+			return err == nil && resp.StatusCode == 200 && string(b) == "DONE"
+		}
+	}
+	// a connection on which no request has been sent yet (http.StateNew)
+	newConn := func(addr string) func(string) bool {
+		return func(string) bool {
+			c, err := net.DialTimeout("tcp", addr, 2*time.Second)
+			if err != nil {
+				return false
+			}
+			defer c.Close()
+			go func() {
+				time.Sleep(50 * time.Millisecond)
+				atomic.AddInt32(&w.arrived, 1)
+			}()
+			io.ReadAll(c)
+			return false
+		}
+	}
+	unary := func(addr string) func(string) bool {
+		return func(d string) bool {
+			cc, err := grpc.NewClient(addr, grpc.WithTransportCredentials(insecure.NewCredentials()))
+			if err != nil {
+				return false
+			}
+			defer cc.Close()
+			ctx := metadata.AppendToOutgoingContext(context.Background(), "dsthost", "rpc.test")
+			m, err := healthpb.NewHealthClient(cc).Check(ctx, &healthpb.HealthCheckRequest{Service: d})
+			return err == nil && m.Status == healthpb.HealthCheckResponse_SERVING
+		}
+	}
+	// the warm-up request of a KeepIdle listener leaves its keep-alive connection open and idle
+	var idleKept []*http.Transport
+	httpKeep := func(addr string) func(string) bool {
+		return func(d string) bool {
+			tr := &http.Transport{}
+			req, _ := http.NewRequest("GET", "http://"+addr+"/work?d="+d, nil)
+			req.Host = "web.test"
+			resp, err := (&http.Client{Transport: tr}).Do(req)
+			if err != nil {
+				return false
+			}
+			b, err := io.ReadAll(resp.Body)
+			resp.Body.Close()
+			idleKept = append(idleKept, tr)
+			return err == nil && resp.StatusCode == 200 && string(b) == "DONE"
+		}
+	}
+	_ = idleKept
+
+	type leafWork struct {
+		d     int
+		run   func(string) bool
+		stuck bool
+	}
 	var items []item
 	res.Items = make([][][]obs, len(sc.Servers))
-	var warm []func(string) bool
-	for i, s := range sc.Servers {
-		var fs []func(string) bool // one client function per leaf
-		var ds [][]int
+	live := res.Items // the item goroutines keep writing here after the snapshot below
+	// prepare builds the clients of server i: its warm-up functions and its items (appended to items)
+	prepare := func(i int) (warm []func(string) bool) {
+		s := sc.Servers[i]
+		var leaves [][]leafWork
+		add := func(li int, ds []int, f func(string) bool, stuck bool) {
+			for _, d := range ds {
+				leaves[li] = append(leaves[li], leafWork{d, f, stuck})
+			}
+		}
 		switch s.Kind {
 		case "http":
-			fs, ds = []func(string) bool{httpReq("http", addrs[i])}, [][]int{s.Items}
+			leaves = make([][]leafWork, 1)
+			add(0, s.Items, httpReq("http", addrs[i]), false)
+			add(0, s.Uploads, upload(addrs[i]), false)
+			for k := 0; k < s.NewConns; k++ {
+				add(0, []int{never}, newConn(addrs[i]), false)
+			}
+			add(0, s.Hijacked, wsClient(addrs[i]), false) // observations: tracked items first, hijacked last
+			if s.KeepIdle {
+				warm = append(warm, httpKeep(addrs[i]))
+			} else {
+				warm = append(warm, httpReq("http", addrs[i]))
+			}
+			if len(s.Hijacked) > 0 {
+				warm = append(warm, wsClient(addrs[i]))
+			}
 		case "tcp", "dyn":
-			fs, ds = []func(string) bool{tunnel(addrs[i], false)}, [][]int{s.Items}
+			leaves = make([][]leafWork, 1)
+			add(0, s.Items, tunnel(addrs[i], false), false)
+			warm = append(warm, tunnel(addrs[i], false))
 		case "sni":
-			fs, ds = []func(string) bool{tunnel(addrs[i], true)}, [][]int{s.Items}
+			leaves = make([][]leafWork, 1)
+			add(0, s.Items, tunnel(addrs[i], true), false)
+			warm = append(warm, tunnel(addrs[i], true))
 		case "grpc":
-			fs, ds = []func(string) bool{stream(addrs[i])}, [][]int{s.Items}
+			leaves = make([][]leafWork, 1)
+			add(0, s.Items, stream(addrs[i]), false)
+			add(0, s.Unary, unary(addrs[i]), false)
+			warm = append(warm, stream(addrs[i]), unary(addrs[i]))
 		case "comp": // children in ServeLater order: tcp.Server, then http.Server
-			fs, ds = []func(string) bool{tunnel(addrs[i], true), httpReq("https", addrs[i])}, [][]int{s.Items, s.Https}
+			leaves = make([][]leafWork, 2)
+			add(0, s.Items, tunnel(addrs[i], true), false)
+			add(1, s.Https, httpReq("https", addrs[i]), false)
+			warm = append(warm, tunnel(addrs[i], true), httpReq("https", addrs[i]))
 		case "blk":
-			fs, ds = []func(string) bool{nil}, [][]int{nil}
+			leaves = make([][]leafWork, 1)
+			add(0, s.Stuck, stuckClient(addrs[i], true), true)
 			warm = append(warm, stuckClient(addrs[i], true))
 		case "dial": // no warm-up possible: every connection gets stuck in the dial
-			fs, ds = []func(string) bool{nil}, [][]int{nil}
+			leaves = make([][]leafWork, 1)
+			add(0, s.Stuck, stuckClient(addrs[i], false), true)
 		}
-		res.Items[i] = make([][]obs, len(fs))
-		for li := range fs {
-			if fs[li] != nil {
-				warm = append(warm, fs[li])
-			}
-			res.Items[i][li] = make([]obs, len(ds[li]))
-			for ii, d := range ds[li] {
-				res.Items[i][li][ii] = obs{K: "open"}
-				items = append(items, item{i, li, ii, d, fs[li], false})
+		live[i] = make([][]obs, len(leaves))
+		for li := range leaves {
+			live[i][li] = make([]obs, len(leaves[li]))
+			for ii, lw := range leaves[li] {
+				live[i][li][ii] = obs{K: "open"}
+				items = append(items, item{i, li, ii, lw.d, lw.run, lw.stuck})
 			}
 		}
-		if s.Kind == "blk" || s.Kind == "dial" { // observations of the stuck connections follow the items
-			for _, b := range s.Stuck {
-				res.Items[i][0] = append(res.Items[i][0], obs{K: "open"})
-				items = append(items, item{i, 0, len(res.Items[i][0]) - 1, b, stuckClient(addrs[i], s.Kind == "blk"), true})
-			}
-		}
+		return warm
 	}
 	// warm-up: one immediate item through every leaf, so that every accept loop is known to run
-	for k, f := range warm {
-		ok := false
-		for try := 0; try < 50 && !ok; try++ {
-			if ok = f("w"); !ok {
-				time.Sleep(20 * time.Millisecond)
+	warmUp := func(warm []func(string) bool) bool {
+		for k, f := range warm {
+			ok := false
+			for try := 0; try < 50 && !ok; try++ {
+				if ok = f("w"); !ok {
+					time.Sleep(20 * time.Millisecond)
+				}
+			}
+			if !ok {
+				res.Err = fmt.Sprintf("warm-up through leaf %d failed", k)
+				return false
 			}
 		}
-		if !ok {
-			res.Err = fmt.Sprintf("warm-up through leaf %d failed", k)
-			return
-		}
+		return true
 	}
-
-	// ---- put the items in flight
-	live := res.Items // the item goroutines keep writing here after the snapshot below
 	var mu sync.Mutex
 	var t0 time.Time
-	finished := make(chan int, len(items))
-	for k, it := range items {
-		go func(k int, it item) {
-			ok := it.run(strconv.Itoa(it.d))
-			mu.Lock()
-			ms := int(time.Since(t0).Milliseconds())
-			if t0.IsZero() {
-				ms = -1
-			}
-			o := obs{K: "cut", T: ms}
-			if ok {
-				o.K = "done"
-			}
-			live[it.si][it.li][it.ii] = o
-			mu.Unlock()
-			finished <- k
-		}(k, it)
-	}
-	deadline = time.Now().Add(8 * time.Second)
-	for int(atomic.LoadInt32(&w.arrived)) < len(items) {
-		if time.Now().After(deadline) {
-			res.Err = fmt.Sprintf("only %d of %d items reached their backend", atomic.LoadInt32(&w.arrived), len(items))
-			return
+	finished := make(chan int, 256)
+	launched := 0
+	// launch puts every not yet launched item in flight and waits until all have reached their backend
+	launch := func() bool {
+		for k := launched; k < len(items); k++ {
+			go func(k int, it item) {
+				ok := it.run(strconv.Itoa(it.d))
+				mu.Lock()
+				ms := int(time.Since(t0).Milliseconds())
+				if t0.IsZero() {
+					ms = -1
+				}
+				o := obs{K: "cut", T: ms}
+				if ok {
+					o.K = "done"
+				}
+				live[it.si][it.li][it.ii] = o
+				mu.Unlock()
+				finished <- k
+			}(k, items[k])
 		}
-		time.Sleep(2 * time.Millisecond)
+		launched = len(items)
+		deadline := time.Now().Add(8 * time.Second)
+		for int(atomic.LoadInt32(&w.arrived)) < len(items) {
+			if time.Now().After(deadline) {
+				res.Err = fmt.Sprintf("only %d of %d items reached their backend", atomic.LoadInt32(&w.arrived), len(items))
+				return false
+			}
+			time.Sleep(2 * time.Millisecond)
+		}
+		return true
+	}
+
+	// ---- phase A: the listeners that run from the beginning, with their work
+	var warmA []func(string) bool
+	for i, s := range sc.Servers {
+		if s.RestartOf == 0 && s.StartAt == 0 {
+			warmA = append(warmA, prepare(i)...)
+		} else if s.StartAt > 0 {
+			live[i] = [][]obs{{}} // started while Shutdown runs: nothing in flight on it
+		}
+	}
+	if !warmUp(warmA) || !launch() {
+		return
 	}
 	time.Sleep(20 * time.Millisecond)
 
@@ -723,7 +948,26 @@ func runChild(sc scenario) (res result) {
 			}
 		}
 	}
-	time.Sleep(time.Duration(lead) * time.Millisecond)
+	// ---- restarts: a new listener on an address that CloseProxy has just freed, with its own work
+	tLead := time.Now()
+	for i, s := range sc.Servers {
+		if s.RestartOf > 0 {
+			time.Sleep(30 * time.Millisecond)
+			startServer(i)
+			wm := prepare(i)
+			if !warmUp(wm) || !launch() {
+				select {
+				case e := <-serveErr:
+					res.Err = "restart listen: " + e
+				default:
+				}
+				return
+			}
+		}
+	}
+	if rest := time.Duration(lead)*time.Millisecond - time.Since(tLead); rest > 0 {
+		time.Sleep(rest)
+	}
 
 	// ---- shutdown
 	ret := make(chan int, 1)
@@ -732,6 +976,12 @@ func runChild(sc scenario) (res result) {
 	mu.Unlock()
 	close(w.start)
 	for i, s := range sc.Servers {
+		if s.StartAt > 0 {
+			go func(i, d int) {
+				time.Sleep(time.Duration(d) * time.Millisecond)
+				startServer(i)
+			}(i, s.StartAt)
+		}
 		if s.CloseAt > 0 {
 			go func(a string, d int) {
 				time.Sleep(time.Duration(d) * time.Millisecond)
@@ -860,11 +1110,26 @@ func coqLeaf(kind string, ds []int) string {
 func coqServer(s srvSpec) string {
 	switch s.Kind {
 	case "http":
-		return "(Single " + coqLeaf("KHttp", s.Items) + ")"
+		items := append(append([]int{}, s.Items...), s.Uploads...)
+		for k := 0; k < s.NewConns; k++ {
+			items = append(items, never)
+		}
+		if len(s.Hijacked) > 0 {
+			hs := make([]string, len(s.Hijacked))
+			for i, d := range s.Hijacked {
+				hs[i] = coqDur(d)
+			}
+			is := make([]string, len(items))
+			for i, d := range items {
+				is[i] = coqDur(d)
+			}
+			return "(Single (LH " + vh.List(is) + " " + vh.List(hs) + "))"
+		}
+		return "(Single " + coqLeaf("KHttp", items) + ")"
 	case "tcp", "sni", "dyn":
 		return "(Single " + coqLeaf("KTcp", s.Items) + ")"
 	case "grpc":
-		return "(Single " + coqLeaf("KGrpc", s.Items) + ")"
+		return "(Single " + coqLeaf("KGrpc", append(append([]int{}, s.Items...), s.Unary...)) + ")"
 	case "blk", "dial":
 		xs := make([]string, len(s.Stuck))
 		for i, d := range s.Stuck {
@@ -938,106 +1203,145 @@ func main() {
 
 	run := vh.Start("C18")
 	r := run.Rng
-	const wait = 800
-	// durations: short = ends well within the wait, long = well beyond it; never closer than 90 ms to the wait
-	short := func() int { return 200 + r.Intn(250) }               // 0.25x .. 0.56x: ends >= 350 ms before the deadline
-	long := func() int { return wait + 400 + r.Intn(2*wait-400) } // 1.5x .. 3x: >= 400 ms beyond the deadline
-	scs := []scenario{
-		{Name: "http", Class: "http", Servers: []srvSpec{{Kind: "http", Items: []int{short(), short(), long(), 3 * wait}}}},
-		{Name: "http-short+idle", Class: "http", Servers: []srvSpec{{Kind: "http", Items: []int{short(), short()}}, {Kind: "http"}}},
-		{Name: "http-never", Class: "http", Servers: []srvSpec{{Kind: "http", Items: []int{short(), never}}}},
-		{Name: "tcp", Class: "tcp", Servers: []srvSpec{{Kind: "tcp", Items: []int{short(), short(), long(), never}}}},
-		{Name: "sni+dyn", Class: "tcp", Servers: []srvSpec{{Kind: "sni", Items: []int{short(), never}}, {Kind: "dyn", Items: []int{short(), long()}}}},
-		{Name: "grpc-short", Class: "grpc", Servers: []srvSpec{{Kind: "grpc", Items: []int{short(), short()}}}},
-		{Name: "grpc-over", Class: "grpc", Servers: []srvSpec{{Kind: "grpc", Items: []int{short(), long()}}}},
-		{Name: "grpc-10x", Class: "grpc-beyond-wait", Servers: []srvSpec{{Kind: "grpc", Items: []int{short(), 10 * wait}}}},
-		{Name: "grpc-never", Class: "grpc-beyond-wait", Servers: []srvSpec{{Kind: "grpc", Items: []int{short(), never}}}},
-		{Name: "composite", Class: "composite", Servers: []srvSpec{{Kind: "comp", Items: []int{short(), never}, Https: []int{short(), long()}}}},
-		{Name: "mixed", Class: "mixed", Servers: []srvSpec{
-			{Kind: "http", Items: []int{short(), long()}}, {Kind: "tcp", Items: []int{short(), never}}, {Kind: "sni", Items: []int{short()}},
-			{Kind: "grpc", Items: []int{short(), short()}}, {Kind: "comp", Items: []int{short()}, Https: []int{short()}}}},
-		{Name: "mixed-http-grpc", Class: "mixed", Servers: []srvSpec{
-			{Kind: "http", Items: []int{short(), long()}}, {Kind: "http", Items: []int{short()}}, {Kind: "grpc", Items: []int{short()}}, {Kind: "dyn", Items: []int{long()}}}},
-		{Name: "tcp-stuck-handler", Class: "tcp-stuck-handler", Servers: []srvSpec{
-			{Kind: "blk", Stuck: []int{short(), 10 * wait}}, {Kind: "tcp", Items: []int{short(), never}}}},
-		{Name: "tcp-stuck-dialing", Class: "tcp-stuck-handler", Servers: []srvSpec{{Kind: "dial", Stuck: []int{5000}}}},
-		// multi-homed: the same port number on two local addresses
-		{Name: "same-port-tcp+tcp", Class: "same-port", Servers: []srvSpec{
-			{Kind: "tcp", Items: []int{short(), never}, PortGroup: 1}, {Kind: "tcp", Items: []int{short(), long()}, IP: "127.0.0.2", PortGroup: 1}}},
-		{Name: "same-port-http+http", Class: "same-port", Servers: []srvSpec{
-			{Kind: "http", Items: []int{short(), long()}, PortGroup: 1}, {Kind: "http", Items: []int{short(), short()}, IP: "127.0.0.2", PortGroup: 1}}},
-		{Name: "same-port-http+tcp", Class: "same-port", Servers: []srvSpec{
-			{Kind: "http", Items: []int{short(), long()}, IP: "127.0.0.2", PortGroup: 1}, {Kind: "tcp", Items: []int{short(), never}, PortGroup: 1},
-			{Kind: "grpc", Items: []int{short()}, PortGroup: 2}, {Kind: "dyn", Items: []int{short()}, IP: "127.0.0.2", PortGroup: 2}}},
-		// histories: a dynamically opened listener is closed by CloseProxy shortly before, or while, Shutdown runs
-		{Name: "close-before-busy", Class: "history", Servers: []srvSpec{
-			{Kind: "http", Items: []int{short(), long()}}, {Kind: "dyn", Items: []int{short(), never}, CloseAt: -100}, {Kind: "tcp", Items: []int{short(), never}}}},
-		{Name: "close-before-idle", Class: "history", Servers: []srvSpec{
-			{Kind: "http", Items: []int{short()}}, {Kind: "grpc", Items: []int{short(), never}}, {Kind: "dyn", CloseAt: -100}}},
-		{Name: "close-before-two", Class: "history", Servers: []srvSpec{
-			{Kind: "dyn", Items: []int{short()}, CloseAt: -250}, {Kind: "dyn", Items: []int{long()}}, {Kind: "tcp", CloseAt: -100},
-			{Kind: "comp", Items: []int{short()}, Https: []int{short(), long()}}}},
-		{Name: "close-during", Class: "history", Servers: []srvSpec{
-			{Kind: "http", Items: []int{short(), long()}}, {Kind: "dyn", Items: []int{short(), never}, CloseAt: 100}, {Kind: "tcp", Items: []int{short()}}}},
-		{Name: "close-before-and-during", Class: "history", Servers: []srvSpec{
-			{Kind: "dyn", Items: []int{short(), long()}, CloseAt: -100}, {Kind: "dyn", Items: []int{short(), never}, CloseAt: 200}, {Kind: "http", Items: []int{short()}}}},
-		// second instances of the main classes with other durations
-		{Name: "http-2", Class: "http", Servers: []srvSpec{{Kind: "http", Items: []int{short(), long(), never}}, {Kind: "http", Items: []int{long()}}}},
-		{Name: "tcp-2", Class: "tcp", Servers: []srvSpec{{Kind: "tcp", Items: []int{short(), long()}}, {Kind: "sni", Items: []int{short(), long()}}, {Kind: "dyn", Items: []int{never}}}},
-		{Name: "grpc-2", Class: "grpc", Servers: []srvSpec{{Kind: "grpc", Items: []int{short(), long(), never}}, {Kind: "grpc", Items: []int{short()}}}},
-		{Name: "composite-2", Class: "composite", Servers: []srvSpec{{Kind: "comp", Items: []int{short(), long()}, Https: []int{short(), never}}, {Kind: "http", Items: []int{short()}}}},
-		{Name: "mixed-2", Class: "mixed", Servers: []srvSpec{
-			{Kind: "grpc", Items: []int{short(), never}}, {Kind: "tcp", Items: []int{short(), long()}}, {Kind: "http", Items: []int{short(), long()}},
-			{Kind: "blk", Stuck: []int{short(), 10 * wait}}, {Kind: "sni", Items: []int{short(), never}}}},
-		{Name: "idle-http", Class: "idle", Servers: []srvSpec{{Kind: "http"}}},
-		{Name: "idle-all", Class: "idle", Servers: []srvSpec{{Kind: "http"}, {Kind: "tcp"}, {Kind: "grpc"}, {Kind: "comp"}}},
-	}
-	if run.Thorough() {
-		kinds := []string{"http", "tcp", "sni", "dyn", "grpc", "comp", "blk"}
-		for i := 0; i < 24; i++ {
-			n := 1 + r.Intn(4)
-			sc := scenario{Name: fmt.Sprintf("random-%d", i), Class: "random"}
-			for j := 0; j < n; j++ {
-				s := srvSpec{Kind: kinds[r.Intn(len(kinds))]}
-				gen := func() []int {
-					var ds []int
-					for k := r.Intn(4); k > 0; k-- {
-						switch x := r.Intn(10); {
-						case x < 5:
-							ds = append(ds, short())
-						case x < 8:
-							ds = append(ds, long())
-						case s.Kind != "grpc": // never-ending gRPC streams cost the hang cap: only in the directed scenario
-							ds = append(ds, never)
-						default:
-							ds = append(ds, short())
-						}
-					}
-					return ds
-				}
-				s.Items = gen()
-				if s.Kind == "blk" { // stuck handlers instead of tunnels; a never-returning one would only cost time
-					s.Stuck, s.Items = s.Items, nil
-					for k, b := range s.Stuck {
-						if b < 0 {
-							s.Stuck[k] = 10 * wait
-						}
-					}
-				}
-				if s.Kind == "comp" {
-					s.Https = gen()
-				}
-				if (s.Kind == "dyn" || s.Kind == "tcp") && r.Intn(4) == 0 {
-					s.CloseAt = []int{-100, -250, 100}[r.Intn(3)]
-				}
-				sc.Servers = append(sc.Servers, s)
+	// Two waits: 600 ms for every scenario, 1500 ms again for a selection (a Shutdown that takes
+	// 1.5x the wait is 300 ms late at 600 ms, within the scheduling margin, but 750 ms late at 1500 ms).
+	// durations: short = ends >= 350 ms before the deadline, long = >= 400 ms beyond it
+	build := func(wait int) []scenario {
+		short := func() int {
+			lo := 180
+			if wait/4 > lo {
+				lo = wait / 4
 			}
+			return lo + r.Intn(wait-350-lo+1)
+		}
+		long := func() int { return wait + 400 + r.Intn(1100) }
+		scs := []scenario{
+			{Name: "http", Class: "http", Servers: []srvSpec{{Kind: "http", Items: []int{short(), short(), long(), long()}}}},
+			{Name: "http-short+idle", Class: "http", Servers: []srvSpec{{Kind: "http", Items: []int{short(), short()}}, {Kind: "http"}}},
+			{Name: "http-never", Class: "http", Servers: []srvSpec{{Kind: "http", Items: []int{short(), never}}}},
+			{Name: "tcp", Class: "tcp", Servers: []srvSpec{{Kind: "tcp", Items: []int{short(), short(), long(), never}}}},
+			{Name: "sni+dyn", Class: "tcp", Servers: []srvSpec{{Kind: "sni", Items: []int{short(), never}}, {Kind: "dyn", Items: []int{short(), long()}}}},
+			{Name: "grpc-short", Class: "grpc", Servers: []srvSpec{{Kind: "grpc", Items: []int{short(), short()}}}},
+			{Name: "grpc-over", Class: "grpc", Servers: []srvSpec{{Kind: "grpc", Items: []int{short(), long()}}}},
+			{Name: "grpc-10x", Class: "grpc-beyond-wait", Servers: []srvSpec{{Kind: "grpc", Items: []int{short(), 10 * wait}}}},
+			{Name: "grpc-never", Class: "grpc-beyond-wait", Servers: []srvSpec{{Kind: "grpc", Items: []int{short(), never}}}},
+			{Name: "composite", Class: "composite", Servers: []srvSpec{{Kind: "comp", Items: []int{short(), never}, Https: []int{short(), long()}}}},
+			{Name: "mixed", Class: "mixed", Servers: []srvSpec{
+				{Kind: "http", Items: []int{short(), long()}}, {Kind: "tcp", Items: []int{short(), never}}, {Kind: "sni", Items: []int{short()}},
+				{Kind: "grpc", Items: []int{short(), short()}}, {Kind: "comp", Items: []int{short()}, Https: []int{short()}}}},
+			{Name: "mixed-http-grpc", Class: "mixed", Servers: []srvSpec{
+				{Kind: "http", Items: []int{short(), long()}}, {Kind: "http", Items: []int{short()}}, {Kind: "grpc", Items: []int{short()}}, {Kind: "dyn", Items: []int{long()}}}},
+			{Name: "tcp-stuck-handler", Class: "tcp-stuck-handler", Servers: []srvSpec{
+				{Kind: "blk", Stuck: []int{short(), 10 * wait}}, {Kind: "tcp", Items: []int{short(), never}}}},
+			{Name: "tcp-stuck-dialing", Class: "tcp-stuck-handler", Servers: []srvSpec{{Kind: "dial", Stuck: []int{5000}}}},
+			// multi-homed: the same port number on two local addresses
+			{Name: "same-port-tcp+tcp", Class: "same-port", Servers: []srvSpec{
+				{Kind: "tcp", Items: []int{short(), never}, PortGroup: 1}, {Kind: "tcp", Items: []int{short(), long()}, IP: "127.0.0.2", PortGroup: 1}}},
+			{Name: "same-port-http+http", Class: "same-port", Servers: []srvSpec{
+				{Kind: "http", Items: []int{short(), long()}, PortGroup: 1}, {Kind: "http", Items: []int{short(), short()}, IP: "127.0.0.2", PortGroup: 1}}},
+			{Name: "same-port-http+tcp", Class: "same-port", Servers: []srvSpec{
+				{Kind: "http", Items: []int{short(), long()}, IP: "127.0.0.2", PortGroup: 1}, {Kind: "tcp", Items: []int{short(), never}, PortGroup: 1},
+				{Kind: "grpc", Items: []int{short()}, PortGroup: 2}, {Kind: "dyn", Items: []int{short()}, IP: "127.0.0.2", PortGroup: 2}}},
+			// histories: a dynamically opened listener is closed by CloseProxy shortly before, or while, Shutdown runs
+			{Name: "close-before-busy", Class: "history", Servers: []srvSpec{
+				{Kind: "http", Items: []int{short(), long()}}, {Kind: "dyn", Items: []int{short(), never}, CloseAt: -100}, {Kind: "tcp", Items: []int{short(), never}}}},
+			{Name: "close-before-idle", Class: "history", Servers: []srvSpec{
+				{Kind: "http", Items: []int{short()}}, {Kind: "grpc", Items: []int{short(), never}}, {Kind: "dyn", CloseAt: -100}}},
+			{Name: "close-before-two", Class: "history", Servers: []srvSpec{
+				{Kind: "dyn", Items: []int{short()}, CloseAt: -250}, {Kind: "dyn", Items: []int{long()}}, {Kind: "tcp", CloseAt: -100},
+				{Kind: "comp", Items: []int{short()}, Https: []int{short(), long()}}}},
+			{Name: "close-during", Class: "history", Servers: []srvSpec{
+				{Kind: "http", Items: []int{short(), long()}}, {Kind: "dyn", Items: []int{short(), never}, CloseAt: 100}, {Kind: "tcp", Items: []int{short()}}}},
+			{Name: "close-before-and-during", Class: "history", Servers: []srvSpec{
+				{Kind: "dyn", Items: []int{short(), long()}, CloseAt: -100}, {Kind: "dyn", Items: []int{short(), never}, CloseAt: 200}, {Kind: "http", Items: []int{short()}}}},
+			// second instances of the main classes with other durations
+			{Name: "http-2", Class: "http", Servers: []srvSpec{{Kind: "http", Items: []int{short(), long(), never}}, {Kind: "http", Items: []int{long()}}}},
+			{Name: "tcp-2", Class: "tcp", Servers: []srvSpec{{Kind: "tcp", Items: []int{short(), long()}}, {Kind: "sni", Items: []int{short(), long()}}, {Kind: "dyn", Items: []int{never}}}},
+			{Name: "grpc-2", Class: "grpc", Servers: []srvSpec{{Kind: "grpc", Items: []int{short(), long(), never}}, {Kind: "grpc", Items: []int{short()}}}},
+			{Name: "composite-2", Class: "composite", Servers: []srvSpec{{Kind: "comp", Items: []int{short(), long()}, Https: []int{short(), never}}, {Kind: "http", Items: []int{short()}}}},
+			{Name: "mixed-2", Class: "mixed", Servers: []srvSpec{
+				{Kind: "grpc", Items: []int{short(), never}}, {Kind: "tcp", Items: []int{short(), long()}}, {Kind: "http", Items: []int{short(), long()}},
+				{Kind: "blk", Stuck: []int{short(), 10 * wait}}, {Kind: "sni", Items: []int{short(), never}}}},
+			// websocket sessions (hijacked connections) on an HTTP listener
+			{Name: "ws-http-only", Class: "hijacked", Servers: []srvSpec{{Kind: "http", Hijacked: []int{short()}}}},
+			{Name: "ws-http-busy", Class: "hijacked", Servers: []srvSpec{{Kind: "http", Items: []int{never}, Hijacked: []int{short(), long()}}}},
+			{Name: "ws-with-tcp", Class: "hijacked", Servers: []srvSpec{{Kind: "http", Items: []int{short()}, Hijacked: []int{short(), long(), never}}, {Kind: "tcp", Items: []int{short()}}}},
+			// a tcp-dynamic listener started while Shutdown runs (main.go's watcher is not stopped)
+			{Name: "late-start", Class: "late-start", Servers: []srvSpec{
+				{Kind: "http", Items: []int{short(), long()}}, {Kind: "tcp", Items: []int{short(), never}}, {Kind: "dyn", StartAt: 60}}},
+			{Name: "late-start-idle", Class: "late-start", Servers: []srvSpec{{Kind: "http"}, {Kind: "dyn", StartAt: 60}}},
+			// the tcp-dynamic restart: start a; CloseProxy a; start a again
+			{Name: "restart-busy", Class: "history-restart", Servers: []srvSpec{
+				{Kind: "dyn", Items: []int{short(), never}, CloseAt: -250}, {Kind: "http", Items: []int{short()}}, {Kind: "dyn", Items: []int{short(), long()}, RestartOf: 1}}},
+			{Name: "restart-idle", Class: "history-restart", Servers: []srvSpec{
+				{Kind: "tcp", CloseAt: -100}, {Kind: "grpc", Items: []int{short()}}, {Kind: "tcp", Items: []int{never}, RestartOf: 1}}},
+			// other kinds of open work: unary gRPC calls, request bodies still uploading, connections
+			// without a request yet, idle keep-alive connections
+			{Name: "grpc-unary", Class: "grpc", Servers: []srvSpec{{Kind: "grpc", Items: []int{short()}, Unary: []int{short(), long(), never}}}},
+			{Name: "grpc-unary-short", Class: "grpc", Servers: []srvSpec{{Kind: "grpc", Unary: []int{short(), short()}}}},
+			{Name: "http-upload", Class: "http", Servers: []srvSpec{{Kind: "http", Items: []int{short()}, Uploads: []int{short(), long()}, KeepIdle: true}}},
+			{Name: "http-new-conn", Class: "http", Servers: []srvSpec{{Kind: "http", Items: []int{short()}, NewConns: 1, KeepIdle: true}}},
+			{Name: "http-idle-conn", Class: "http", Servers: []srvSpec{{Kind: "http", Items: []int{short()}, KeepIdle: true}, {Kind: "http", KeepIdle: true}}},
+			{Name: "idle-http", Class: "idle", Servers: []srvSpec{{Kind: "http"}}},
+			{Name: "idle-all", Class: "idle", Servers: []srvSpec{{Kind: "http"}, {Kind: "tcp"}, {Kind: "grpc"}, {Kind: "comp"}}},
+		}
+		if run.Thorough() {
+			kinds := []string{"http", "tcp", "sni", "dyn", "grpc", "comp", "blk"}
+			for i := 0; i < 24; i++ {
+				n := 1 + r.Intn(4)
+				sc := scenario{Name: fmt.Sprintf("random-%d", i), Class: "random"}
+				for j := 0; j < n; j++ {
+					s := srvSpec{Kind: kinds[r.Intn(len(kinds))]}
+					gen := func() []int {
+						var ds []int
+						for k := r.Intn(4); k > 0; k-- {
+							switch x := r.Intn(10); {
+							case x < 5:
+								ds = append(ds, short())
+							case x < 8:
+								ds = append(ds, long())
+							case s.Kind != "grpc": // never-ending gRPC streams cost the hang cap: only in the directed scenario
+								ds = append(ds, never)
+							default:
+								ds = append(ds, short())
+							}
+						}
+						return ds
+					}
+					s.Items = gen()
+					if s.Kind == "blk" { // stuck handlers instead of tunnels; a never-returning one would only cost time
+						s.Stuck, s.Items = s.Items, nil
+						for k, b := range s.Stuck {
+							if b < 0 {
+								s.Stuck[k] = 10 * wait
+							}
+						}
+					}
+					if s.Kind == "comp" {
+						s.Https = gen()
+					}
+					if (s.Kind == "dyn" || s.Kind == "tcp") && r.Intn(4) == 0 {
+						s.CloseAt = []int{-100, -250, 100}[r.Intn(3)]
+					}
+					sc.Servers = append(sc.Servers, s)
+				}
+				scs = append(scs, sc)
+			}
+		}
+		for i := range scs {
+			scs[i].Wait = wait
+			scs[i].Cap = 10000
+		}
+		return scs
+	}
+	scs := build(600)
+	again := map[string]bool{"http": true, "http-never": true, "tcp": true, "grpc-never": true, "grpc-10x": true, "composite": true,
+		"mixed": true, "tcp-stuck-handler": true, "close-before-busy": true, "ws-http-only": true}
+	for _, sc := range build(1500) {
+		if again[sc.Name] {
+			sc.Name += "-w1500"
 			scs = append(scs, sc)
 		}
-	}
-	for i := range scs {
-		scs[i].Wait = wait
-		scs[i].Cap = 10000
 	}
 
 	results := make([]result, len(scs))
@@ -1074,15 +1378,44 @@ func main() {
 			run.Violation(run.NextID(), "scenario "+sc.Name+" could not be set up three times (harness problem, no verdict): "+msg, sc)
 			continue
 		}
-		var srv []string // the history: starts in order, then the CloseProxy calls
+		// the history: the starts before shutdown, the CloseProxy calls before it, the restarts on the
+		// freed addresses, then what happens while Shutdown runs (servers are listed in that order)
+		var srv []string
+		phase := func(s srvSpec) int {
+			switch {
+			case s.StartAt > 0:
+				return 2
+			case s.RestartOf > 0:
+				return 1
+			}
+			return 0
+		}
+		for k := 1; k < len(sc.Servers); k++ {
+			if phase(sc.Servers[k]) < phase(sc.Servers[k-1]) {
+				panic("scenario " + sc.Name + ": servers must be listed in start order")
+			}
+		}
 		for k, s := range sc.Servers {
-			srv = append(srv, vh.App("HStart", coqAddr(res.Addrs[k]), coqServer(s)))
+			if phase(s) == 0 {
+				srv = append(srv, vh.App("HStart", coqAddr(res.Addrs[k]), coqServer(s)))
+			}
 		}
 		for k, s := range sc.Servers {
 			if s.CloseAt < 0 {
 				srv = append(srv, vh.App("HClose", coqAddr(res.Addrs[k])))
-			} else if s.CloseAt > 0 {
+			}
+		}
+		for k, s := range sc.Servers {
+			if phase(s) == 1 {
+				srv = append(srv, vh.App("HStart", coqAddr(res.Addrs[k]), coqServer(s)))
+			}
+		}
+		for k, s := range sc.Servers {
+			if s.CloseAt > 0 {
 				srv = append(srv, vh.App("HCloseDuring", coqAddr(res.Addrs[k])))
+			}
+			if phase(s) == 2 {
+				srv = append(srv, vh.App("HStartDuring", coqAddr(res.Addrs[k]), coqServer(s)))
 			}
 		}
 		T := vh.None
@@ -1111,12 +1444,18 @@ func main() {
 				run.Violation(id, fmt.Sprintf("proxy.Shutdown(%dms) had not returned after %dms although no never-ending gRPC stream was open", sc.Wait, sc.Cap), sc)
 			}
 		}
-		if res.Left != 0 {
+		late := 0
+		for _, sv := range sc.Servers {
+			if sv.StartAt > 0 {
+				late++ // registered after the snapshot: expected to be left (F-C18-3)
+			}
+		}
+		if res.Left != late {
 			run.Violation(id, fmt.Sprintf("registry of running servers not emptied by Shutdown: %d left", res.Left), sc)
 		}
 	}
-	run.Notes["wait_ms"] = wait
+	run.Notes["wait_ms"] = []int{600, 1500}
 	run.Notes["hang_cap_ms"] = 10000
-	run.Notes["tolerances_ms"] = map[string]int{"lower": lowerTol, "upper": upperTol, "spec_slack": 2000}
+	run.Notes["tolerances_ms"] = map[string]interface{}{"lower": lowerTol, "upper": upperTol, "http_poll": 600, "spec_margin": 150, "spec_slack": "max(300, wait/4)"}
 	run.Finish(preamble, run.Scale(4, 8))
 }
